@@ -175,7 +175,26 @@ func c06NewScenario(nact int) (*ActiveScenario, *progress.Stats) {
 //verif:replace (*$M/internal/metrics.Metrics).RecordIterationResult c06RecordIteration
 //verif:noreplay the metrics sink is replaced by a ghost list and the monotonic clock is a nondeterministic stub
 //verif:unroll 40
-func VerifC06_IterationLifecycle() {
+func VerifC06_IterationLifecycle() { c06IterationLifecycle() }
+
+// VerifC16_IterationSamples: the same harness under C16: exactly one observation per iteration is handed to the
+// exported-metrics sink, carrying the very classification the progress statistics received.
+//
+//verif:replace (*$M/internal/metrics.Metrics).RecordIterationResult c06RecordIteration
+//verif:noreplay the metrics sink is replaced by a ghost list and the monotonic clock is a nondeterministic stub
+//verif:unroll 40
+func VerifC16_IterationSamples() { c06IterationLifecycle() }
+
+// VerifC17_DurationMeasured: the same harness under C17: the duration handed to both sinks is taken from clock
+// readings immediately around the recovered body: it covers the body's own clock interval, starts after the
+// handle was reset (no queueing time) and ends before the first cleanup starts.
+//
+//verif:replace (*$M/internal/metrics.Metrics).RecordIterationResult c06RecordIteration
+//verif:noreplay the metrics sink is replaced by a ghost list and the monotonic clock is a nondeterministic stub
+//verif:unroll 40
+func VerifC17_DurationMeasured() { c06IterationLifecycle() }
+
+func c06IterationLifecycle() {
 	nact := 2
 	if zz.Thorough() {
 		nact = 3
@@ -240,7 +259,7 @@ func VerifC06_IterationLifecycle() {
 	zz.Assert("C01.progress_counts_match_outcomes", tot.FailedIterationDurations.Count == nf && tot.SuccessfulIterationDurations.Count == 2-nf)
 }
 
-// VerifC07_Containment: three consecutive iterations on ONE worker handle, each body a single arbitrary action
+// VerifC07_Containment: two (quick) / three (thorough) consecutive iterations on ONE worker handle, each body a single arbitrary action
 // (11 opcodes incl. every failure API and panics with error / string / int / nil / runtime error), optionally
 // preceded by registering a cleanup with arbitrary behaviour (nop / Fail / FailNow / panic): Run returns normally
 // every time (the worker survives), each iteration is reported by its OWN outcome to both sinks, a failure raised
@@ -282,7 +301,11 @@ func VerifC07_Containment() {
 	}
 	state = as.newIterationState()
 	nf := uint64(0)
-	for it := 0; it < 3; it++ {
+	iters := 2
+	if zz.Thorough() {
+		iters = 3
+	}
+	for it := 0; it < iters; it++ {
 		cur = it
 		state.t.Reset("9")
 		as.Run(state) // a panic escaping Run would end this path with a reachable-panic obligation
@@ -298,7 +321,7 @@ func VerifC07_Containment() {
 	}
 	tot := stats.Total()
 	zz.Cover("C07.seq.done")
-	zz.CoverIf("C07.seq.fail_pass_fail", nf == 2)
+	zz.CoverIf("C07.seq.mixed_outcomes", nf == 1)
 	zz.Assert("C07.seq.entry_clean", entryClean)
-	zz.Assert("C07.seq.progress_counts", tot.FailedIterationDurations.Count == nf && tot.SuccessfulIterationDurations.Count == 3-nf)
+	zz.Assert("C07.seq.progress_counts", tot.FailedIterationDurations.Count == nf && tot.SuccessfulIterationDurations.Count == uint64(iters)-nf)
 }
